@@ -238,6 +238,59 @@ def pages(tier):
     return out + hand
 
 
+INVOKE_PAGES = [
+    # text, expected with expand_invoke=True, expected with expand_invoke=False, template_fn calls (names)
+    ("{{#invoke:m|f|x}}", "L(x)", "{{#invoke:m|f|x}}", []),
+    ("{{wrap|x}} {{wrap|y}}", "<L(x)> <L(y)>", "<{{#invoke:m|f|x}}> <{{#invoke:m|f|y}}>", ["wrap", "wrap"]),
+    ("{{box|{{#invoke:m|f}}}}{{box|b}}", "[L()][b]", "[{{#invoke:m|f}}][b]", ["box", "box"]),
+    ("{{wrap|{{box|q}}}}{{wrap|z}}", "<L([q])><L(z)>", "<{{#invoke:m|f|[q]}}><{{#invoke:m|f|z}}>", ["box", "wrap", "wrap"]),
+    ("{{#if:1|{{wrap|a}}}}{{wrap|b}}", "<L(a)><L(b)>", "<{{#invoke:m|f|a}}><{{#invoke:m|f|b}}>", ["wrap", "wrap"]),
+]
+
+
+def work_invoke(payload, skip, report):
+    """expand_invoke switch: #invoke inside template bodies / arguments, sibling calls, repeated calls on one page."""
+    from ..fixtures import add_ustring
+
+    acc = Acc(PROP)
+    ctx = new_ctx(lua=True)
+    ctx.add_page("Module:m", 828, "local e = {} function e.f(frame) return 'L(' .. (frame.args[1] or '') .. ')' end return e",
+                 model="Scribunto")
+    ctx.add_page("Template:wrap", 10, "<{{#invoke:m|f|{{{1|}}}}}>")
+    ctx.add_page("Template:box", 10, "[{{{1|}}}]")
+    ctx.db_conn.commit()
+    i = 0
+    for text, want_t, want_f, names in INVOKE_PAGES:
+        for inv, pre, hook, reps in itertools.product((True, False), (False, True), (False, True), (1, 3)):
+            report(i)
+            i += 1
+            calls = []
+
+            def tf(name, args):
+                calls.append(name)
+                return None
+
+            case = {"page": text, "config": {"expand_invoke": inv, "pre_expand": pre, "template_fn": hook, "calls_on_same_page": reps}}
+            ctx.start_page("Tt")
+            acc.case()
+            want = want_t if inv else want_f
+            for r in range(reps):
+                del calls[:]
+                try:
+                    got = ctx.expand(text, expand_invoke=inv, pre_expand=pre, templates_to_expand={"wrap", "box"} if pre else None,
+                                     template_fn=tf if hook else None)
+                except Exception as e:
+                    got = "EXC " + type(e).__name__
+                if got != want:
+                    acc.violation("expand_invoke_switch", case, {"call": r + 1, "got": got}, want)
+                    break
+                if hook and sorted(calls) != sorted(names):
+                    acc.violation("template_fn_once_per_expanded_call", case, sorted(calls), sorted(names))
+                    break
+    close_ctx(ctx)
+    return acc
+
+
 def work(payload, skip, report):
     acc = Acc(PROP)
     tier, cfgs = payload
@@ -266,6 +319,8 @@ def main(run):
     chunks = [c for c in chunks if c[1]]
     for cid, acc, hung in run_chunks(work, chunks, nproc=run.nproc, case_timeout=30):
         run.acc.merge(acc)
+    for cid, acc, hung in run_chunks(work_invoke, [("invoke",)], nproc=1, case_timeout=60):
+        run.acc.merge(acc)
     cov = {
         "distinct_nontrivial": len(run.acc.sets.get("configs", ())),
         "pages": len(pages(run.tier)),
@@ -279,6 +334,6 @@ def main(run):
     }
     assumptions = [
         "selection rule taken from the expand() docstring: under pre_expand a template is expanded iff it exists, is not in templates_to_not_expand and is flagged need_pre_expand or in templates_to_expand; without pre_expand everything is expanded",
-        "expand_invoke is exercised by C16 (needs Lua); here only template and parser-function selection",
+        "expand_invoke: a dedicated slice (5 pages with #invoke in bodies / arguments / siblings x switch x pre_expand x hook x repeated calls) with hand-written expectations",
     ]
     return run.finish(cov, assumptions, replay_fn=None)
